@@ -26,15 +26,15 @@ impl FromStr for Move {
             Some(Move {
                 from: s.get(0..2)?.parse().ok()?,
                 to: s.get(2..4)?.parse().ok()?,
-                promotion: if let Some(promotion) = s.get(4..5) {
-                    let promotion = promotion.parse().ok()?;
-                    if matches!(promotion, Piece::King | Piece::Pawn) {
-                        None
-                    } else {
+                promotion: match s.get(4..)? {
+                    "" => None,
+                    promotion => {
+                        let promotion = promotion.parse().ok()?;
+                        if matches!(promotion, Piece::King | Piece::Pawn) {
+                            return None;
+                        }
                         Some(promotion)
                     }
-                } else {
-                    None
                 }
             })
         }
